@@ -193,6 +193,26 @@ CHECKS = {
     ),
 }
 
+# chosen (not enumerated) scenarios beyond each lattice, added because seeded changes needed scale, horizon or an exact boundary value
+BEYOND = {
+    "C02": "a grid 4200 cells wide with positions off the dyadic lattice; settled particles in the state",
+    "C03": "intervals of 75-150 steps between frames, also with single-precision files",
+    "C04": "tables of 65 000 rows and 3300 continuous ticks; release_time of the new particles",
+    "C05": "crowd histories (120-1200 particles, one or two dead), also through Output.write",
+    "C06": "crowds of 120-700 particles; a reference time in another century; every dense variable also read in one piece with sentinel-initialised buffers",
+    "C07": "file-name prototypes whose counter has or gets five digits; runs in which everything is dead and nothing is left to release",
+    "C08": "a cohort that dies out completely before a late release; the known finding is recognised only by the exact outcome it explains",
+    "C09": "a 260x300 grid with land and open boundary where flat cell numbers exceed 2**15 and 2**16; draw-structure-agnostic diffusion oracle (assignment search)",
+    "C10": "vertical advection (w mirrored, depth compared) and a reference time in another century in one slice",
+    "C12": "one lookup call with 1100 particles in scrambled order against per-column calls",
+    "C14": "crowds of 400 particles next to the observed ones",
+    "C15": "a 200x220 grid; one random value per step so that the oracle is independent of how the tracker draws",
+    "C16": "grids 1600 cells wide / 1500 cells tall",
+    "C17": "2600 particles released in one step; Runge-Kutta stages exactly on a grid limit; signature-agnostic kernel proxies with write checks",
+    "C18": "a v1 period of 30 h, a reference time at the epoch, an IBM option with value 0.0",
+    "C20": "a record of 800 days with a missing last step; a packed time coordinate; a plug-in grid without ll2xy (each with a control run)",
+}
+
 PENDING_REASON = "check not built yet (work in progress, see DESIGN.md §11 build order)"
 NOT_APPLICABLE: dict[str, str] = {}
 
@@ -212,7 +232,7 @@ def main() -> None:
                     evidence_file=f"/verif/evidence/{pid}.json",
                     replay_cmd_template=f"./check {pid} --replay {{path}}",
                     engine="mc-explorer",
-                    level_claimed=dict(category=cat, text=text, design_ref=ref),
+                    level_claimed=dict(category=cat, text=text + (f" Beyond the lattice (chosen scenarios): {BEYOND[pid]}." if pid in BEYOND else ""), design_ref=ref),
                     level_note=note,
                     technique=tech,
                 )
@@ -240,7 +260,9 @@ def main() -> None:
         ],
         checks=checks,
         not_applicable=na,
-        notes="See DESIGN.md. Known findings: known_findings.json. Seeded property-breaking changes: seeded/.",
+        notes="See DESIGN.md. Known findings: known_findings.json. Seeded property-breaking changes: seeded/ (DESIGN 14). Property-preserving changes used as a "
+        "false-alarm test: benign/ (DESIGN 14b). The environment variables LADIM2_VERIF_REPO / LADIM2_VERIF_OUT are read by the runner only for that tooling "
+        "(scratch worktrees); the registered commands never set them and always check /repo's working tree.",
     )
     (VERIF / "MANIFEST.json").write_text(json.dumps(man, indent=1) + "\n")
 
